@@ -180,11 +180,63 @@ def run_requests(case):
     return '+'.join(sorted(labels)), nt
 
 
+def rollover_cases():
+    out = []
+    for first in (1, 4):
+        for second in (1, 4, 5):
+            for warm in (True, False):
+                for how in ('load', 'imp-dict', 'imp-list'):
+                    for level in ('response', 'assertion'):
+                        if first != second:
+                            out.append({'first': first, 'second': second, 'warm': warm, 'how': how, 'level': level})
+    return out
+
+
+def run_rollover(case):
+    """one long-lived SP whose metadata source for the IdP is re-loaded with another signing certificate between two responses:
+    after the reload only the key the metadata holds now authenticates the IdP"""
+    import os
+    world.install_inprocess_tool()
+    clock.install()
+    now = spside.NOW
+    clock.set_now(now)
+    path = os.path.join(os.getcwd(), 'idp-md-%d.xml' % os.getpid())
+
+    def write(k):
+        with open(path, 'w') as f:
+            f.write(build.entity_xml({'entityid': spside.IDP, 'idp': {'keys': [('signing', k)]}}))
+    write(case['first'])
+    conf = world.sp_conf(dict(world.DEFAULT_SP, want_response_signed=case['level'] == 'response', want_assertions_signed=case['level'] == 'assertion'), [])
+    conf['metadata'] = {'local': [path]}
+    sp = world.make_sp(conf)
+
+    def send(k, n):
+        r, a = build.standard(now, rid='id-resp-%d' % n, aid='id-assertion-%d' % n)
+        doc = build.render(r, [a], sign_response=k if case['level'] == 'response' else None, sign_assertions=k if case['level'] == 'assertion' else None)
+        return spside.deliver(sp, doc)[0] == 'accept'
+    if case['warm'] and not send(case['first'], 1):
+        raise Violation('valid-message-refused', 'response signed with the key the metadata holds (pool %d) refused' % case['first'])
+    write(case['second'])
+    if case['how'] == 'load':
+        sp.metadata.load('local', path)
+    elif case['how'] == 'imp-dict':
+        sp.metadata.imp({'local': [path]})
+    else:
+        sp.metadata.imp([{'class': 'saml2_tophat.mdstore.MetaDataFile', 'metadata': [(path,)]}])
+    if send(case['first'], 2):
+        raise Violation('retired-key-accepted', 'after the IdP\'s metadata was re-loaded (%s) with signing key %d, a %s signed with the retired key %d was accepted%s'
+                        % (case['how'], case['second'], case['level'], case['first'], ' (a message under the old key had been verified before)' if case['warm'] else ''))
+    if not send(case['second'], 3):
+        raise Violation('valid-message-refused', 'after the reload a %s signed with the current key %d is refused' % (case['level'], case['second']))
+    return 'rollover|%s|%s' % (case['how'], 'warm' if case['warm'] else 'cold'), True
+
+
 def known_match(part, case, v):
     return None
 
 
 def parts(tier):
     quick = tier != 'thorough'
-    return [Part('federations', run, strategy=case_strategy, examples=600 if quick else 15000),
+    return [Part('key-rollover', run_rollover, cases=rollover_cases, exhaustive=True),
+            Part('federations', run, strategy=case_strategy, examples=600 if quick else 15000),
             Part('requests', run_requests, strategy=request_strategy, examples=300 if quick else 8000)]
